@@ -165,7 +165,7 @@ PROPS = {
         "harnesses": [
             H("bc_fill_2_a", cost=290, timeout_q=900, **BC), H("bc_add_keyed", cost=120, **BC), H("bc_budget_two_rounds", cost=100, **BC),
             H("c07_send_pb_17", cost=75), H("a_apply1_k1", cost=120), H("c01_idempotent", cost=130),
-            H("c15_key_same_addr", cost=60, entry="Foca::handle_apply_summary x3 on the real backlog (no stubs)"), H("c15_key_diff_addr", cost=60), H("bc_fill_1", cost=80, **BC),
+            H("c15_key_same_addr", cost=60, entry="Foca::handle_apply_summary x3 on the real backlog (no stubs)"), H("c15_key_diff_addr", cost=60), H("c15_key_returning", cost=60), H("bc_fill_1", cost=80, **BC),
             H("t_gossip_idle", tier=T), H("bc_fill_2_b", tier=T, cost=300, **BC), H("bc_fill_3_a", tier=T, cost=900, timeout_t=3000, **BC), H("bc_fill_3_b", tier=T, cost=900, timeout_t=3000, **BC),
             H("bc_fill_3_c", tier=T, cost=900, timeout_t=3000, **BC), H("bc_fill_real_buffer", tier=T, **BC), H("t_gossip", tier=T, cost=200), H("c07_send_pb_22", tier=T, cost=130),
             H("c07_send_feed_17", tier=T), H("c07_send_bare_10", tier=T), H("a_gossip", tier=T, cost=90), H("t_probe_k2", tier=T),
